@@ -1,5 +1,8 @@
-(* SchedLoopModel: a coroutine that waits in a run queue of worker w (global or local) is taken out of w's LOCAL queue - by
-   w's local.pop, which resumes it next, or by a thief - before w has completed two more rounds of its loop (work_steal). *)
+(* SchedLoopModel, the loop BEFORE the budget (budgeted P = false): a coroutine that waits in a run queue of worker w (global
+   or local) is taken out of w's LOCAL queue - by w's local.pop, which resumes it next, or by a thief - before w has completed
+   two more rounds of its loop (work_steal): run_queued_tasks returned only with an empty local queue.  (That a round
+   completes at all was the flaw: Rt/SchedLoopRefute.v.)  With the budget a round may end with a non-empty local queue; the
+   bounds for the code as it is are in Rt/SchedLoopBudget.v.  The lemmas about stealing at the end hold for both. *)
 From Coq Require Import List Arith ZArith NArith Bool Lia.
 Import ListNotations.
 Require Import MayV.Rt.SchedModel MayV.Rt.SchedInv MayV.Rt.SchedTac MayV.Rt.SchedThm MayV.Rt.SchedLoopModel MayV.Rt.SchedLoopBase
@@ -13,12 +16,12 @@ Definition StA l w c := In c (gq (base l) w).
 Definition StB l w c := In c (hand (base l) w) /\ exists r, wpc l w = PColl r \/ wpc l w = PPut r.
 Definition StC l w c := In c (lq (base l) w) /\ in_region (wpc l w) = true.
 
-Lemma region_actor P l a s' w : work_steal P = true -> actor a = Some w -> guard P l a = true ->
+Lemma region_actor P l a s' w : work_steal P = true -> budgeted P = false -> actor a = Some w -> guard P l a = true ->
   in_region (wpc l w) = true -> in_region (wpc (ctl P l a s') w) = true \/ lq (base l) w = [].
 Proof.
-  intros WS A G. destruct a; cbn [actor] in A; try discriminate A; inversion A; subst w0; clear A; cbn [guard] in G; gsplit G.
+  intros WS BU A G. destruct a; cbn [actor] in A; try discriminate A; inversion A; subst w0; clear A; cbn [guard] in G; gsplit G.
   all: match goal with G : _ |- _ => progress pcs G end.
-  all: unfold ctl; rewrite ?E, ?WS.
+  all: unfold ctl; rewrite ?E, ?WS, ?BU.
   all: try (dmatch; unfold grabbed, taken; dmatch; lsimp; rewrite ?upd_eq, ?E; cbn [in_region]; intro X; try discriminate X; auto; fail).
   intros _. destruct (lq (base l) w); cbn [is_nil]; lsimp; rewrite upd_eq; cbn; auto.
 Qed.
@@ -71,16 +74,16 @@ Proof.
   - right. rewrite A. apply in_or_app. now left.
 Qed.
 
-Lemma stageC_step P l a l' w c : work_steal P = true -> lstep P l a = Some l' -> StC l w c ->
+Lemma stageC_step P l a l' w c : work_steal P = true -> budgeted P = false -> lstep P l a = Some l' -> StC l w c ->
   ntake l c < ntake l' c \/ (StC l' w c /\ nsel l' w = nsel l w).
 Proof.
-  unfold StC. intros WS H (I & RG). destruct (local_step _ _ _ _ w c H I) as [A|A]; [now left|]. right.
+  unfold StC. intros WS BU H (I & RG). destruct (local_step _ _ _ _ w c H I) as [A|A]; [now left|]. right.
   assert (NS : nsel l' w = nsel l w).
   { destruct (lstep_nsel _ _ _ _ w H) as [[X _]|(nx & _ & X & _)]; [exact X | rewrite X in RG; discriminate RG]. }
   split; [|exact NS]. split; [exact A|].
   destruct (lstep_inv _ _ _ _ H) as (G & s' & -> & _).
   destruct (option_nat_dec (actor a) (Some w)) as [AC|NA].
-  - destruct (region_actor P l a s' w WS AC G RG) as [X|X]; [exact X | rewrite X in I; destruct I].
+  - destruct (region_actor P l a s' w WS BU AC G RG) as [X|X]; [exact X | rewrite X in I; destruct I].
   - rewrite wpc_ctl_other by exact NA. exact RG.
 Qed.
 
@@ -102,11 +105,11 @@ Proof.
   intro H. destruct (lstep_inv _ _ _ _ H) as (_ & s' & -> & _). unfold ctl. lsimp. now rewrite upd_eq.
 Qed.
 
-Lemma stage_inv P n w c l0 : work_steal P = true -> LReach P n l0 -> w < n ->
+Lemma stage_inv P n w c l0 : work_steal P = true -> budgeted P = false -> LReach P n l0 -> w < n ->
   In c (gq (base l0) w) \/ In c (lq (base l0) w) ->
   forall tr l, lruns P l0 tr = Some l -> Stg l0 l w c.
 Proof.
-  intros WS R0 L START. induction tr as [|a tr IH] using rev_ind; intros l H.
+  intros WS BU R0 L START. induction tr as [|a tr IH] using rev_ind; intros l H.
   - cbn in H. inversion H; subst. destruct START as [S|S]; [right; left; split; [exact S | reflexivity] | right; right; right; auto].
   - apply lruns_snoc in H. destruct H as (l1 & H1 & S). specialize (IH l1 H1).
     assert (R1 : LReach P n l1) by (eapply lruns_reach; eauto).
@@ -117,7 +120,7 @@ Proof.
     + (* stage A *)
       assert (NS : nsel l1 w <= nsel l0 w + 1).
       { destruct (le_lt_dec (nsel l0 w + 2) (nsel l1 w)) as [X|X]; [|lia].
-        pose proof (round_collects P n w tr WS l0 l1 R0 H1 X). lia. }
+        pose proof (round_collects P n w tr WS (or_introl BU) l0 l1 R0 H1 X). lia. }
       destruct (stageA_step _ _ _ _ w c S A) as [X|X].
       * right; left. split; [exact X|].
         destruct (lstep_ncoll _ _ _ _ w S) as [Y|(_ & Y & _)]; [congruence | unfold StA in A; rewrite Y in A; destruct A].
@@ -132,7 +135,7 @@ Proof.
         right; right; left. split; [|lia].
         destruct (stageB_step _ _ _ _ _ w c R1 L S B) as [X|(X & r & Y)]; [now left | right].
         split; [exact X|]. destruct Y as [Y|Y]; rewrite Y; reflexivity.
-      * destruct (stageC_step _ _ _ _ w c WS S C) as [X|(X & Y)]; [left; lia|].
+      * destruct (stageC_step _ _ _ _ w c WS BU S C) as [X|(X & Y)]; [left; lia|].
         right; right; left. split; [now right | lia].
     + (* local, round boundary not yet crossed *)
       destruct (local_step _ _ _ _ w c S C0) as [X|X]; [left; lia|].
@@ -143,13 +146,13 @@ Qed.
 
 (* THE bound in rounds: a coroutine in the global or in the local queue of worker w has been taken out of w's local queue -
    by w (which resumes it next) or by a thief - when w has completed two more rounds (select calls) of its loop *)
-Theorem queued_coroutine_taken_within_two_rounds P n w c tr l l' : work_steal P = true -> LReach P n l -> w < n ->
+Theorem queued_coroutine_taken_within_two_rounds P n w c tr l l' : work_steal P = true -> budgeted P = false -> LReach P n l -> w < n ->
   lruns P l tr = Some l' -> In c (gq (base l) w) \/ In c (lq (base l) w) ->
   nsel l w + 2 <= nsel l' w -> ntake l c < ntake l' c.
 Proof.
-  intros WS R L H START B.
-  destruct (stage_inv P n w c l WS R L START tr l' H) as [D|[(A & NC)|[(_ & NS)|(_ & NS)]]]; [exact D | | lia | lia].
-  pose proof (round_collects P n w tr WS l l' R H B). lia.
+  intros WS BU R L H START B.
+  destruct (stage_inv P n w c l WS BU R L START tr l' H) as [D|[(A & NC)|[(_ & NS)|(_ & NS)]]]; [exact D | | lia | lia].
+  pose proof (round_collects P n w tr WS (or_introl BU) l l' R H B). lia.
 Qed.
 
 (* ---- what stealing adds ---- *)
@@ -159,7 +162,7 @@ Qed.
 Definition StS l v c := In c (hand (base l) v) /\ ((exists i, wpc l v = PSteal i) \/ wpc l v = PStPut).
 
 Lemma stolen_step P n l a l' v c : LReach P n l -> v < n -> lstep P l a = Some l' -> StS l v c ->
-  StS l' v c \/ In c (lq (base l') v) \/ (wpc l' v = PRes RRun /\ hand (base l') v = [c]).
+  StS l' v c \/ In c (lq (base l') v) \/ (wpc l' v = PRes RSt /\ hand (base l') v = [c]).
 Proof.
   unfold StS. intros R L H (I & PC). pose proof (lreach_nw _ _ _ R) as NW.
   pose proof (n_hand _ (iP _ (inv_reach _ _ (lreach_base _ _ _ R))) v) as ND.
